@@ -1,0 +1,62 @@
+//go:build verif
+
+// Contracts for the govc verifier (see /verif/DESIGN.md). Comment-only.
+
+package cla
+
+// Ghost state of a convergence adapter: $running is set by a Start that returned nil and cleared by Close;
+// $starts / $closes count the calls; $lastOK / $lastRetry record what the most recent Start returned.
+// govc:ghostfield $running bool
+// govc:ghostfield $starts uint64
+// govc:ghostfield $closes uint64
+// govc:ghostfield $lastOK bool
+// govc:ghostfield $lastRetry bool
+
+// Assumed contracts of the adapter interface (the adapters themselves are network code outside reach).
+// govc:iface Convergence.Start
+//@ assigns self.$running, self.$starts, self.$lastOK, self.$lastRetry
+//@ ensures self.$starts == old(self.$starts) + 1
+//@ ensures self.$lastOK == (result0 == nil) && self.$lastRetry == result1
+//@ ensures result0 == nil ==> self.$running
+//@ ensures result0 != nil ==> self.$running == old(self.$running)
+
+// govc:iface Convergence.Close
+//@ assigns self.$running, self.$closes
+//@ ensures !self.$running && self.$closes == old(self.$closes) + 1
+
+// govc:iface Convergence.IsPermanent
+//@ assigns nothing
+//@ ensures result == self.IsPermanent()
+
+// govc:iface Convergence.Address
+//@ assigns nothing
+//@ ensures result == self.Address()
+
+// govc:func (*convergenceElem).isActive property C16
+//@ assigns nothing
+//@ ensures result == (ce.ttl < 0)
+
+// Element invariant I(ce): (ce.ttl < 0) == ce.conv.$running  -- "listed active exactly while started".
+// govc:func (*convergenceElem).activate property C16
+//@ requires ce.conv != nil
+//@ requires (ce.ttl < 0) == ce.conv.$running
+//@ assigns ce.ttl, ce.stopSyn, ce.stopAck, ce.conv.$running, ce.conv.$starts, ce.conv.$lastOK, ce.conv.$lastRetry
+//@ ensures (ce.ttl < 0) == ce.conv.$running
+//@ ensures ce.conv.$starts == old(ce.conv.$starts) || ce.conv.$starts == old(ce.conv.$starts) + 1
+//@ ensures successful == (ce.conv.$starts == old(ce.conv.$starts) + 1 && ce.conv.$lastOK)
+//@ ensures successful ==> !retry && ce.conv.$running
+//@ ensures old(ce.ttl) < 0 ==> ce.conv.$starts == old(ce.conv.$starts) && ce.ttl == old(ce.ttl) && !successful && !retry
+//@ ensures !ce.conv.IsPermanent() && old(ce.ttl) == 0 ==> ce.conv.$starts == old(ce.conv.$starts) && !successful && !retry
+//@ ensures old(ce.ttl) > 0 || (ce.conv.IsPermanent() && old(ce.ttl) >= 0) ==> ce.conv.$starts == old(ce.conv.$starts) + 1
+//@ ensures ce.conv.$starts == old(ce.conv.$starts) + 1 && !ce.conv.$lastOK ==> retry == ce.conv.$lastRetry
+//@ ensures !ce.conv.IsPermanent() && ce.conv.$starts == old(ce.conv.$starts) + 1 && !ce.conv.$lastOK && ce.conv.$lastRetry && old(ce.ttl) > 0 ==> ce.ttl == old(ce.ttl) - 1
+//@ ensures ce.conv.IsPermanent() && ce.conv.$starts == old(ce.conv.$starts) + 1 && !ce.conv.$lastOK && ce.conv.$lastRetry ==> retry && ce.ttl >= 0
+//@ ensures successful ==> ce.stopSyn != nil && !closed(ce.stopSyn) && ce.stopAck != nil && !closed(ce.stopAck)
+
+// govc:func (*convergenceElem).deactivate property C16
+//@ requires ce.conv != nil && ttl >= 0
+//@ requires ce.ttl < 0 ==> ce.stopSyn != nil && !closed(ce.stopSyn)
+//@ assigns ce.ttl
+//@ ensures ce.ttl >= 0
+//@ ensures old(ce.ttl) < 0 ==> ce.ttl == ttl && closed(old(ce.stopSyn)) && closes(old(ce.stopSyn)) == old(closes(ce.stopSyn)) + 1
+//@ ensures old(ce.ttl) >= 0 ==> ce.ttl == old(ce.ttl) && closes(ce.stopSyn) == old(closes(ce.stopSyn))
